@@ -256,7 +256,15 @@ func c16Case(in c16In, tags ...string) caseRec {
 		b, e1 := oc.Encode()
 		back, e2 := mercury.DecodeOffchainConfig(b)
 		ok := e1 == nil && e2 == nil && back.ExpirationWindow == oc.ExpirationWindow && back.BaseUSDFee.String() == oc.BaseUSDFee.String() // same number (negative zero has no JSON form)
-		coq = fmt.Sprintf("(KGoOnly 2 %s)", coqBool(ok))
+		_ = ok
+		encTerm, decTerm := "None", "None"
+		if e1 == nil {
+			encTerm = "(Some " + coqHex(b) + ")"
+		}
+		if e2 == nil {
+			decTerm = fmt.Sprintf("(Some (%d, %s))", back.ExpirationWindow, descOfDecimal(back.BaseUSDFee).coq())
+		}
+		coq = fmt.Sprintf("(KMercOff %d %s %s %s)", in.Ver, in.Val.D.coq(), encTerm, decTerm)
 	}
 	return caseRec{Input: in, Output: rec, Coq: coq, Tags: append(tags, in.Kind)}
 }
@@ -443,7 +451,7 @@ func cmdCodecs16(seed int64, n int, out, replay, tier string) {
 				}
 				cs = append(cs, c16Case(c16In{Kind: "retirement", Ver: []uint32{0, 1, 1, randU32(r)}[r.Intn(4)], VA: va}, "structured"))
 				d := genDecWild(r)
-				cs = append(cs, c16Case(c16In{Kind: "mercoffchain", Ver: randU32(r), Val: &svDesc{T: "dec", D: &d}}, "go-only"))
+				cs = append(cs, c16Case(c16In{Kind: "mercoffchain", Ver: randU32(r), Val: &svDesc{T: "dec", D: &d}}, "structured"))
 			}
 		}
 	}
